@@ -47,6 +47,7 @@ def run(ck, fb):
     r02h(ck, fb, 'R04i')
     r04j(ck, fb)
     r04k(ck, fb)
+    r04l(ck, fb)
 
 
 def r04a(ck, fb):
@@ -412,3 +413,39 @@ def recovery_counts_on_every_exit(fb):
     except Exception:
         return False
     return not sh.violations and any(o[0] == 'R04k' for o in sh.obligations)
+
+
+def r04l(ck, fb, R='R04l'):
+    ck.rule(R, 'recovery leaves the index area complete: index slots are positional (slot k is read back as log index start + (k+1) * interval), the '
+               'record that completes an interval is written before its slot, and strip_log_to erases slots before it cuts the data - so a crash '
+               'image can hold a whole interval of records behind the last slot. LogInnerManager::init must be able to write the missing slot: the '
+               'end scan is handed a count derived from the header\'s index_interval (it proceeds interval by interval) and a write to the index '
+               'handle is reachable after it. With an unbounded scan and no repair the next slot written by write() is read back as the one of the '
+               'skipped interval, and a clean restart later loses every entry acknowledged since')
+    LIM = 'rnacos::raft::filestore::raftlog::LogInnerManager::'
+    b = ck.main(LIM + 'init', R)
+    if not b:
+        return
+    scans = []
+    for x in util.region(fb, b, 1):
+        for s0 in x.calls(re.escape(LIM + 'move_to_index_by_count') + '$'):
+            scans.append((x, s0))
+    if not ck.require(len(scans) >= 1, R, 'anchor:end-scan', b.where(), 'init no longer finds the end through move_to_index_by_count'):
+        return
+    by_interval = []
+    for (x, s0) in scans:
+        t = Taint(x, place_src=field_place_src('index_interval'))
+        if len(s0.args) >= 4 and t.op_tainted(s0.args[3]):
+            by_interval.append((x, s0))
+    ok = False
+    for (x, s0) in by_interval:
+        r = cfg.reach_from(x, [s0.bb])
+        slot = Taint(x, call_src=lambda t: bool(re.search(r'write_varint64$', (t.get('f') or {}).get('d', ''))))
+        for w in x.calls(r'AsyncWriteExt::write_all$'):
+            # an index slot is a varint delta: the repair writes the result of write_varint64
+            if w.bb in r and len(w.args) >= 2 and slot.op_tainted(w.args[1]):
+                ok = True
+    ck.require(ok, R, 'init:repairs-missing-index-slot', scans[0][1].where(),
+               'the start-up scan runs past a whole index interval without writing the slot for it: 128 records written, kill before the slot of '
+               'record 128 -> reopen (128 entries, looks fine), 128 more appends, clean restart: end index 128 instead of 256',
+               'scan by interval + index write')
